@@ -27,6 +27,13 @@ def abstract(fn):
     return fn
 
 
+def named(fn):
+    """Spec function kept as a defined symbol in SMT (f(args) == body added on demand, like a recursive one) instead of being
+    inlined at every use: same meaning, smaller verification conditions."""
+    fn._pyvc_named = True
+    return fn
+
+
 def prim(fn):
     """Vocabulary primitive: concrete implementation here, symbolic implementation registered in pyvc."""
     fn._pyvc_prim = True
@@ -35,11 +42,15 @@ def prim(fn):
 
 # ---- object invariant of the matcher (C04.O3): required at entry and ensured at exit of every CSSMatch method, and part
 # of every loop invariant; functions that can reach match_default / match_lang / match_indeterminate may modify the caches
-CACHE_INV = ['default_cache_ok(self, self.cached_default_forms, 0)', 'lang_cache_ok(self, self.cached_meta_lang)',
+CACHE_INV = ['default_cache_ok(self, self.cached_default_forms, 0)', 'lang_cache_ok(self, self.cached_meta_lang, 0)',
              'indet_cache_ok(self, self.cached_indeterminate_forms)']
 CACHE_FIELDS = ['self.cached_default_forms', 'self.cached_meta_lang', 'self.cached_indeterminate_forms']
 TOUCHES_CACHES = {'match_selectors', 'match_nth', 'match_subselectors', 'match_past_relations', 'match_future_child', 'match_future_relations',
                   'match_relations', 'match', 'select', 'closest', 'filter', 'match_default', 'match_lang', 'match_indeterminate'}
+
+
+# the memoising leaves own one table each: their frame is that table only, so their callers keep the other two invariants by framing
+LEAF = {'match_default': 0, 'match_lang': 1, 'match_indeterminate': 2}
 
 
 def apply_object_invariant():
@@ -57,11 +68,14 @@ def apply_object_invariant():
             c.ensures = list(c.ensures) + CACHE_INV
             continue
         if name in TOUCHES_CACHES:
-            if name != 'match_default':
+            leaf = LEAF.get(name)
+            inv = [CACHE_INV[leaf]] if leaf is not None else CACHE_INV
+            fields = [CACHE_FIELDS[leaf]] if leaf is not None else CACHE_FIELDS
+            if leaf is None:
                 # these functions only carry the invariant through their calls: it stays an uninterpreted predicate of the table
                 c.opaque_specs = tuple(c.opaque_specs) + ('default_cache_ok', 'lang_cache_ok', 'indet_cache_ok')
-            c.requires = list(c.requires) + CACHE_INV
-            c.ensures = list(c.ensures) + CACHE_INV
-            c.modifies = list(c.modifies) + [f for f in CACHE_FIELDS if f not in c.modifies]
+            c.requires = list(c.requires) + inv
+            c.ensures = list(c.ensures) + inv
+            c.modifies = list(c.modifies) + [f for f in fields if f not in c.modifies]
             for k, spec in c.loops.items():
-                spec['invariant'] = list(spec.get('invariant', [])) + CACHE_INV
+                spec['invariant'] = list(spec.get('invariant', [])) + inv
